@@ -843,6 +843,6 @@ func init() {
 		Run:            c17Run,
 		Replay:         c17Replay,
 		QuickBudget:    170 * time.Second,
-		ThoroughBudget: 15 * time.Minute,
+		ThoroughBudget: 8 * time.Minute,
 	})
 }
